@@ -170,6 +170,16 @@ theorem nextKey_eq_firstGt (k : Bytes) (es : Entries) :
       simp only [h', Bool.false_eq_true]
       exact ih
 
+theorem find_keysAfter (base : Entries) (k : Bytes) (p : Bytes → Bool) :
+    (Logical.keysAfterE base k).find? p = firstGt k ((base.map (·.1)).filter p) := by
+  unfold Logical.keysAfterE firstGt
+  induction base with
+  | nil => rfl
+  | cons e r ih =>
+    cases h1 : klt k e.1 <;> cases h2 : p e.1 <;>
+      simp only [List.filter_cons, List.map_cons, List.find?_cons, h1, h2, if_true, if_false,
+        Bool.false_eq_true] <;> first | exact ih | rfl
+
 /-! ### the overlay of one level -/
 
 structure Overlay (base : Entries) (ups : KMap Bytes) (dels : KSet) (res : Entries) : Prop where
@@ -199,19 +209,8 @@ theorem Overlay.next (h : Overlay base ups dels res) (k : Bytes) :
         ((Logical.keysAfterE base k).find? (fun x => !KSet.has x dels)) := by
   -- the second candidate: least key of `base` above `k` that is not deleted
   have hB : (Logical.keysAfterE base k).find? (fun x => !KSet.has x dels) =
-      firstGt k ((base.map (·.1)).filter (fun x => !KSet.has x dels)) := by
-    unfold Logical.keysAfterE firstGt
-    induction base with
-    | nil => rfl
-    | cons e r ih =>
-      simp only [List.filter_cons, List.map_cons]
-      by_cases h1 : klt k e.1 = true
-      · by_cases h2 : KSet.has e.1 dels = true
-        · simp [h1, h2, List.find?_cons, ih]
-        · simp [h1, h2, List.find?_cons]
-      · by_cases h2 : KSet.has e.1 dels = true
-        · simp [h1, h2, ih]
-        · simp [h1, h2, List.find?_cons, ih]
+      firstGt k ((base.map (·.1)).filter (fun x => !KSet.has x dels)) :=
+    find_keysAfter base k _
   rw [hB, nextKey_eq_firstGt]
   have sR := omap_sorted_keys h.sres
   have sU := sorted_keys h.sups
